@@ -43,6 +43,30 @@ const SIG_INDEX_OBJECT: &str = "C24/proxy/index-builtins-on-object-input";
 const SIG_SQRT: &str = "C24/proxy/values/sqrt-not-correctly-rounded";
 /// known finding: bare `flatten` flattens one level only (jq: all levels)
 const SIG_FLATTEN: &str = "C24/proxy/values/flatten-only-one-level";
+const SIG_NEG_ZERO_TEXT: &str = "C24/proxy/values/negative-zero-sign-lost-in-text";
+const SIG_TONUMBER_BLANK: &str = "C24/proxy/message/tonumber-of-blank-string";
+
+/// "-0" tokens (not part of a longer number) spelled as "0".
+fn norm_neg_zero(s: &str) -> String {
+    let b = s.as_bytes();
+    let mut out = String::with_capacity(s.len());
+    let mut i = 0;
+    while i < b.len() {
+        if b[i] == b'-' && i + 1 < b.len() && b[i + 1] == b'0' {
+            let before_ok = i == 0 || !(b[i - 1].is_ascii_digit() || b[i - 1] == b'.' || b[i - 1] == b'e' || b[i - 1] == b'E');
+            let after = b.get(i + 2).copied();
+            let after_ok = !matches!(after, Some(c) if c.is_ascii_digit() || c == b'.' || c == b'e' || c == b'E');
+            if before_ok && after_ok {
+                out.push('0');
+                i += 2;
+                continue;
+            }
+        }
+        out.push(b[i] as char);
+        i += 1;
+    }
+    out
+}
 const SIG_FORMAT_LITERAL: &str = "C24/parse-reject/format-string-literal";
 const TWO53: f64 = 9007199254740992.0;
 
@@ -1160,6 +1184,10 @@ fn compare_docs(c: &ProxyCase, env: &ProxyEnv, a: &[DocRes], b: &[DocRes], docs:
             if (c.program.contains("split(") || c.program.contains(" / \"")) && docs[i].contains("\"\"") && strip_empty_string_arrays(&ra.ys) == strip_empty_string_arrays(&rb.ys) {
                 fail!(SIG_SPLIT_EMPTY, {"case": case()});
             }
+            // the sign of a computed zero survives in jq's text forms ("-0") but not here ("0")
+            if ra.ys.len() == rb.ys.len() && ra.ys.iter().zip(rb.ys.iter()).all(|(x, y)| norm_neg_zero(&to_compact(x)) == norm_neg_zero(&to_compact(y))) {
+                fail!(SIG_NEG_ZERO_TEXT, {"case": case()});
+            }
             fail!(format!("C24/proxy/values/{}", ops_sig(&c.ops)), {"case": case()});
         }
         if let (Some(ma), Some(mb)) = (&ra.err, &rb.err) {
@@ -1170,6 +1198,13 @@ fn compare_docs(c: &ProxyCase, env: &ProxyEnv, a: &[DocRes], b: &[DocRes], docs:
                     if comparable {
                         st.class("message-compared");
                         if x != y {
+                            // `tonumber` on a white-space-only string: jq's JSON parser sees no value
+                            if x.starts_with("Expected JSON value (while parsing '") && y.starts_with("Invalid numeric literal at EOF") && c.program.contains("tonumber") {
+                                let inner = &x["Expected JSON value (while parsing '".len()..x.len().saturating_sub(2)];
+                                if !inner.is_empty() && inner.chars().all(|ch| ch == ' ' || ch == '\t') {
+                                    fail!(SIG_TONUMBER_BLANK, {"case": case()});
+                                }
+                            }
                             fail!(format!("C24/proxy/message/{}", t), {"case": case()});
                         }
                     } else {
